@@ -328,6 +328,16 @@ class Run:
                 failed.append("%s violates %s" % (c.func, r.get("violated_clauses")))
             if a.get("reproduced"):
                 failed.append("%s: %s" % (c.func, a.get("sanitizer", "")[:120]))
+        shared = {}
+        for (cfs, c) in getattr(self, "verified_contracts", []):
+            fn_ = getattr(c, "replay_fn", None)
+            if c.gen is None and fn_ is not None and fn_ not in shared:
+                shared[fn_] = c
+        for fn_, c in shared.items():
+            r = self._shared_replay(fn_)
+            done.append({"harness": getattr(fn_, "__name__", "?"), "for": c.func, "executions": r.get("executions"), "reproduced": bool(r.get("reproduced"))})
+            if r.get("reproduced"):
+                failed.append("%s: real kernel disagrees with the spec (%s)" % (getattr(fn_, "__name__", "?"), str(r.get("real_code"))[:160]))
         seen = set()
         for o in self.sink.obls:
             if o.replay is None or o.status != "discharged" or o.meta.get("finding_witness"):
